@@ -21,6 +21,7 @@ loads what was saved (see vh/sut/persist_save.py).
 """
 from __future__ import annotations
 
+import gc
 import json
 import os
 
@@ -312,7 +313,38 @@ class Checker:
                  "%s: after mutating load L1, %s (%s) sees %s changed" % (label, n, where, attr))
 
 
-SAVE_CAP_QUICK, SAVE_CAP_THOROUGH = 12, 60        # schedules per (shape, variant)
+class SafeGC:
+    """The cyclic garbage collector runs only where the driver says so.  cachebox (a compiled third-party extension behind
+    the database's @cached getters) calls back into Python while it holds its own lock, and its tp_traverse takes the
+    same lock: a collection that happens to start inside a cached getter blocks the process for ever (observed: main
+    thread in futex wait below gc_collect_main -> cachebox._core, after a few thousand loads).  Not a property of
+    StreamFlow and not what C08 is about: automatic collection is off while the driver runs and `tick()` collects between
+    two cases, when no cached getter is active."""
+
+    def __init__(self, every=25, full_every=1500):
+        self.every, self.full_every, self.n = every, full_every, 0
+
+    def __enter__(self):
+        self.was = gc.isenabled()
+        gc.collect()
+        gc.freeze()          # what exists now (shapes, histories emitted by TLC) is never traversed again
+        gc.disable()
+        return self
+
+    def __exit__(self, *a):
+        gc.unfreeze()
+        if self.was:
+            gc.enable()
+
+    def tick(self):
+        self.n += 1
+        if self.n % self.full_every == 0:
+            gc.collect()
+        elif self.n % self.every == 0:
+            gc.collect(1)    # the young generations only: what the last cases left behind
+
+
+SAVE_CAP_QUICK, SAVE_CAP_THOROUGH = 12, 20        # schedules per (shape, variant)
 SAVE_INVS = ["SaveTypeOK", "SaveReturnsWithId", "TopReturnsWithId", "RefsResolved", "OneRow", "SavedAll"]
 
 
@@ -354,6 +386,7 @@ class ConcurrentSaver:
         self.port_id = self.wf_id = None
         self.pending = []          # (trace, detail, classes) waiting for the batch verdict of TLC
         self.ck = Checker(ctx, sf)
+        self.gc = SafeGC()
 
     async def setup(self):
         from streamflow.core.workflow import Workflow
@@ -428,9 +461,24 @@ class ConcurrentSaver:
         while choices is not None and done < cap:
             widths = await self.one(shape, variant, choices)
             done += 1
+            self.gc.tick()
             self.ctx.case(("concurrent-save", json.dumps(shape, sort_keys=True), variant, tuple(choices)), True)
             choices = self.S.next_choices(choices, widths)
         return done, choices is None
+
+    @staticmethod
+    def reach(shape, node):
+        """The entities saved along with `node` (ReachSet of the module)."""
+        seen, todo = {node}, [node]
+        while todo:
+            n = todo.pop()
+            for part in ("pre", "post"):
+                for stage in shape[part].get(n, []):
+                    for m in stage:
+                        if m not in seen:
+                            seen.add(m)
+                            todo.append(m)
+        return seen
 
     def verdicts(self):
         """The batch verdict of Trace_PersistenceSave on every recorded trace."""
@@ -447,7 +495,8 @@ class ConcurrentSaver:
                 ls = sorted({l for l, c in v["bad"] if c == clause and 2 <= l <= len(evs) + 1})
                 hit = [l for l in ls if evs[l - 2]["n"] == kind_of.get(clause)
                        and (clause != "RefsResolved" or any(i in (0, self.S.UNKNOWN) for _, i in evs[l - 2].get("refs", [])))
-                       and (clause != "TopReturnsWithId" or evs[l - 2].get("id") == 0 or any(i == 0 for _, i in evs[l - 2].get("pids", [])))]
+                       and (clause != "TopReturnsWithId" or evs[l - 2].get("id") == 0
+                            or any(i == 0 and m in self.reach(trace["shape"], trace["shape"]["tops"][evs[l - 2]["t"]]) for m, i in evs[l - 2].get("pids", [])))]
                 offending += [(l, clause) for l in (hit or ls[:1])]
             for l, clause in offending[:4]:
                 e = evs[l - 2]
@@ -462,7 +511,7 @@ class ConcurrentSaver:
                         what = "a row in flight refers to an id that is not (any more) the persistent id of the referred entity (event %s)" % json.dumps(e)[:200]
                 elif clause == "TopReturnsWithId":
                     node = trace["shape"]["tops"].get(e.get("t"))
-                    unsaved = sorted({classes.get(m, "?") for m, i in e.get("pids", []) if i == 0})
+                    unsaved = sorted({classes.get(m, "?") for m, i in e.get("pids", []) if i == 0 and m in self.reach(trace["shape"], node)})
                     if e.get("id") == 0:
                         sig = "concurrent-save:TopReturnsWithId:%s:%s" % (fam, classes.get(node, "?"))
                         what = "save() of %s %s returned to caller %s while the entity had no persistent id" % (classes.get(node, "?"), node, e.get("t"))
@@ -516,6 +565,7 @@ def run(ctx):
     variants = ctx.pick(["combinator", "execute"], ["combinator", "execute", "loop-combinator"])
 
     holder = {}
+    safegc = SafeGC()
 
     async def main():
         from vh.sut import context as sctx
@@ -524,11 +574,12 @@ def run(ctx):
         try:
             # Part 4: concurrent saves of shared entities, every schedule of every shape (capped per shape)
             cs = holder["cs"] = ConcurrentSaver(ctx, sf)
+            cs.gc = safegc
             await cs.setup()
             try:
                 for i, sh in enumerate(saveshapes):
                     fam = sh["name"]
-                    vs = [(i + ctx.seed + 4 * k) % 9 for k in range(ctx.pick(1, 3))] if fam == "tokens" else [0]
+                    vs = [(i + ctx.seed) % 9] if fam == "tokens" else [0]      # container classes dealt to the roles o, a, b
                     for v in vs:
                         done, complete = await cs.all_schedules(sh, v, ctx.pick(SAVE_CAP_QUICK, SAVE_CAP_THOROUGH))
                         ctx.count("save_schedules:%s" % fam, done)
@@ -543,6 +594,7 @@ def run(ctx):
                 for path in mine:
                     ctx.case(("resave", variant, path[-1]["_t"]), sum(1 for t in path if t["act"] == "save") > 1)
                     await rs.run(path)
+                    safegc.tick()
                     ctx.count("resave_histories:%s" % variant)
                 ctx.impl_trace(len(mine))
             for item in sel:
@@ -550,12 +602,14 @@ def run(ctx):
                 trivial = item["family"] == "one" and set(sh["steps"][0]) == {"kind"}
                 ctx.case(json.dumps(sh, sort_keys=True), not trivial)
                 await ck.check_shape(item)
+                safegc.tick()
                 ctx.count("shapes_checked:%s" % item["family"])
             ctx.impl_trace(len(sel))
         finally:
             await sctx.close(sf)
 
-    res, err = aio.run(main(), timeout=ctx.pick(900, 3000))
+    with safegc:
+        res, err = aio.run(main(), timeout=ctx.pick(900, 3000))
     if err is not None:
         raise err
     holder["cs"].verdicts()
@@ -596,7 +650,8 @@ def replay(ctx, data):
         finally:
             await sctx.close(sf)
 
-    res, err = aio.run(main(), timeout=600)
+    with SafeGC():
+        res, err = aio.run(main(), timeout=600)
     if err is not None:
         raise err
     if "cs" in holder:
